@@ -292,6 +292,8 @@ class _FakeLF:
         # one animal per frame (used when instances_key=True); a "bare" frame has no non-empty instance
         if i in owner.bare:
             self.instances = [_FakeInst(owner.np, i, empty=True)] if i % 2 else []
+        elif owner.multi and i % 3 == 2:
+            self.instances = [_FakeInst(owner.np, i), _FakeInst(owner.np, i + 100)]     # max_instances = 2: NaN padding elsewhere
         else:
             self.instances = [_FakeInst(owner.np, i)]
 
@@ -322,12 +324,14 @@ class FakeLabels:
     """labels[idx] is a scheduling point; the fault is raised either by labels[idx]
     or by lf.image (fault_in_image)."""
 
-    def __init__(self, n: int, fault, ctl: Controller, fault_in_image: bool, n_videos: int = 1, bare=()):
+    def __init__(self, n: int, fault, ctl: Controller, fault_in_image: bool, n_videos: int = 1, bare=(),
+                 multi: bool = False):
         import numpy as np
         self.np = np
         self.n, self.fault, self.ctl, self.fault_in_image = n, fault, ctl, fault_in_image
         self.videos = [_FakeVid(v) for v in range(n_videos)]
         self.bare = set(bare)
+        self.multi = multi
         self.skeletons = [_FakeNodes()]
 
     def __len__(self):
@@ -428,14 +432,22 @@ def stub_inference_model(ex):
            "n_img": ex["image"].shape[0]}
     if "instances" in ex:
         # x / y of the first keypoint of the frame's animal = its position (both are scaled by eff_scale)
-        out["inst0"] = ex["instances"][:, 0, 0, 0, 0] / ex["instances"][:, 0, 0, 0, 1]
+        if ex["instances"].shape[2] == 0:      # no frame of the labels lists an instance: max_instances = 0
+            import torch
+            out["inst0"] = torch.full((ex["instances"].shape[0],), float("nan"))
+        else:
+            out["inst0"] = ex["instances"][:, 0, 0, 0, 0] / ex["instances"][:, 0, 0, 0, 1]
+        # rows of the instance tensor and how many of them are not NaN padding
+        out["inst_rows"] = [int(ex["instances"].shape[2])] * int(ex["instances"].shape[0])
+        out["inst_real"] = (~ex["instances"][:, 0, :, 0, 0].isnan()).sum(dim=1)
     return [out]
 
 
 def run_schedule(reader: str, start: int, end: int, cap: int, batch: int, fault, choices: str,
                  default: str = "P", fault_in_image: bool = False, defaults: bool = False,
                  instances_key: bool = False, yield_point: bool = False, ctor: str = "direct",
-                 args=None, n_videos: int = 1, bare=(), poll: str = "none", infer_raises_at=None) -> dict:
+                 args=None, n_videos: int = 1, bare=(), poll: str = "none", infer_raises_at=None,
+                 multi_inst: bool = False) -> dict:
     """One controlled execution.  `reader` is 'video' or 'labels' (labels: start must be 0).
     `yield_point`: make the hand-over of a yielded batch a scheduling point too.
     `defaults`: construct the VideoReader with start_idx=None, end_idx=None (start must be 0; the
@@ -445,6 +457,7 @@ def run_schedule(reader: str, start: int, end: int, cap: int, batch: int, fault,
     'from_filename' (the classmethod: sio.load_video / sio.load_slp and the Queue class it builds its
     buffer from are substituted in the providers module for the duration of the call).
     `n_videos`, `bare`: multi-video labels; positions whose labelled frame has no non-empty instance.
+    `multi_inst`: the frames at positions i = 2 (mod 3) hold two animals (max_instances = 2, NaN padding elsewhere).
     `poll`: 'none' | 'retry' | 'giveup' (see PollingQueue).  `infer_raises_at`: the inference callable
     raises at its k-th call (observation stream).
     Returns the trace, the yielded batches, the status and the choice letters used."""
@@ -467,7 +480,7 @@ def run_schedule(reader: str, start: int, end: int, cap: int, batch: int, fault,
         src = FakeVideo(n_total, fault, ctl)
     else:
         assert start == 0
-        src = FakeLabels(end, fault, ctl, fault_in_image, n_videos=n_videos, bare=bare)
+        src = FakeLabels(end, fault, ctl, fault_in_image, n_videos=n_videos, bare=bare, multi=multi_inst)
     if ctor == "from_filename":
         import sleap_nn.data.providers as prov
         saved = (prov.Queue, prov.sio.load_video, prov.sio.load_slp)
@@ -523,6 +536,8 @@ def run_schedule(reader: str, start: int, end: int, cap: int, batch: int, fault,
                        "n_img": int(out["n_img"])}
                 if "inst0" in out:
                     rec["inst0"] = [None if x != x else float(x) for x in out["inst0"].tolist()]
+                    rec["inst_rows"] = [int(x) for x in out["inst_rows"]]
+                    rec["inst_real"] = [int(x) for x in out["inst_real"]]
                 yielded.append(rec)
                 if yield_point:
                     # the caller of the generator is slow: the reader may run between the last get of a
